@@ -11,7 +11,8 @@ pub fn keys() -> Vec<Key> {
     vec![vec![], vec![0x12], vec![0x12, 0x34], vec![0x12, 0x35], vec![0x13], vec![0x12, 0x34, 0x56], vec![0x22]]
 }
 
-pub fn vals() -> Vec<Val> { vec![vec![], vec![0x07], vec![0x09; 65]] }
+/// empty, one byte, just above / exactly at / just below the inline bound (64 bytes)
+pub fn vals() -> Vec<Val> { vec![vec![], vec![0x07], vec![0x09; 65], vec![0x0A; 64], vec![0x0B; 63]] }
 
 #[derive(Clone, Copy, Debug, PartialEq, Eq, Hash)]
 pub enum Persist {
@@ -35,6 +36,9 @@ pub enum Op {
     Checkpoint,
     Rollback,
     Commit,
+    /// abandon the newest generation and take a new checkpoint of its parent at once -- nothing
+    /// looks at the parent in between (two nested calls in a row, the first one failing)
+    RollbackCheckpoint,
     Refreeze(Persist),
 }
 
@@ -53,6 +57,7 @@ pub fn op_json(op: &Op) -> J {
         Op::Checkpoint => json!(["checkpoint"]),
         Op::Rollback => json!(["rollback"]),
         Op::Commit => json!(["commit"]),
+        Op::RollbackCheckpoint => json!(["rollback_then_checkpoint"]),
         Op::Refreeze(p) => json!(["refreeze", format!("{p:?}")]),
     }
 }
@@ -78,6 +83,7 @@ pub fn op_from_json(j: &J) -> Option<Op> {
         "checkpoint" => Op::Checkpoint,
         "rollback" => Op::Rollback,
         "commit" => Op::Commit,
+        "rollback_then_checkpoint" => Op::RollbackCheckpoint,
         "refreeze" => Op::Refreeze(match a.get(1)?.as_str()? {
             "Plain" => Persist::Plain,
             "StoreReload" => Persist::StoreReload,
@@ -183,7 +189,7 @@ impl Harness {
                 Op::Iter(_) => live < self.max_iters && top.iters.len() < self.max_iters + 1,
                 Op::Next(i) | Op::DelIter(i) => top.iters.get(*i).map(|x| x.is_some()).unwrap_or(false),
                 Op::Checkpoint => self.model.len() < self.max_depth,
-                Op::Rollback | Op::Commit => self.model.len() > 1,
+                Op::Rollback | Op::Commit | Op::RollbackCheckpoint => self.model.len() > 1,
                 Op::Refreeze(_) => self.model.len() == 1,
                 _ => true,
             })
@@ -364,6 +370,17 @@ impl Harness {
             Op::Rollback => {
                 self.frames.pop();
                 self.model.pop();
+            }
+            Op::RollbackCheckpoint => {
+                self.frames.pop();
+                self.model.pop();
+                let mut loader = Loader::new(&self.store[..]);
+                let top = self.frames.last_mut().unwrap();
+                let child = top.state.make_fresh_generation(&mut loader);
+                let root = top.root + 1;
+                self.frames.push(RFrame { state: child, iters: vec![], root });
+                let m = self.model.last().unwrap().map.clone();
+                self.model.push(MFrame::with_map(m));
             }
             Op::Commit => {
                 let n = self.frames.len();
